@@ -34,6 +34,8 @@ def run(ctx, rep):
     rep.guarded("R07-CTORS", lambda: r_ctors(sh, rep))
     rep.rule("R07-SEED", "decision-tree matrices: every find-by-case on case_matrices / relevant_columns that updates on a hit creates the entry on a miss (case matrices seeded from the default rows)", floor=6)
     rep.guarded("R07-SEED", lambda: r_seed(sh, rep))
+    rep.rule("R07-TAILPICK", "the tree run for a list of a given length is chosen among the `[.., ..tail]` cases by longest fitting prefix, never by position in the case table", floor=2)
+    rep.guarded("R07-TAILPICK", lambda: r_tailpick(sh, rep))
     rep.rule("R07-LITEQ", "literal patterns are told apart exactly: equality on exhaustive::Literal / Pattern is structural (derived) or, if written by hand, free of lossy conversions", floor=2)
     rep.guarded("R07-LITEQ", lambda: r_liteq(sh, rep))
 
@@ -220,3 +222,72 @@ def r_seed(sh, rep):
         rep.check(creates and seeded, "R07-SEED", "do_build_tree#%s#find-or-create#%d" % (vec, n), sh.loc(DT, node), "this lookup in `%s` handles only the hit (miss branch %s%s): a row whose case has no entry yet is dropped, and a later clause creating the entry starts from the wildcard rows alone — a list or constructor value then runs a later clause than the first one that matches" % (vec, "creates an entry" if creates else "does not create the entry", "" if seeded else ", not seeded from `%s`" % KEYED[vec]), sample={"table": vec, "line": node["s"][0]})
     if n < 6:
         rep.bad("R07-SEED", "do_build_tree#sites", sh.loc(DT, f), "only %d find-or-create sites found in do_build_tree, 6 confirmed by hand (anchor)" % n)
+
+
+# ---------------------------------------------------------------------------------------------------------
+# R07-TAILPICK: which tail case the generated code runs for a list of n elements
+# ---------------------------------------------------------------------------------------------------------
+GENU7 = "crates/aiken-lang/src/gen_uplc.rs"
+POSITIONAL = {"last", "first", "find", "nth", "get", "next", "position", "find_map", "rfind"}
+ORDERING = {"max_by_key", "max_by", "min_by_key", "min_by", "sorted_by_key", "sorted_by", "sort_by_key", "sort_by", "max", "min"}
+
+
+def _chain(n):
+    """method names of a call chain, innermost first, plus the root expression and every argument expression"""
+    ms, args = [], []
+    while n.get("k") == "MethodCall":
+        ms.append(n["m"])
+        args += n["args"]
+        n = n["recv"]
+    return list(reversed(ms)), n, args
+
+
+def r_tailpick(sh, rep):
+    """TreeGen builds one matrix per case; the matrix of ListWithTail(i) holds, in source order, every clause whose prefix
+    is at most i long. A list of n elements that has no fixed-length case must therefore run the tail case with the
+    *largest* i <= n (and lists longer than every pattern the tail case with the largest i overall): a shorter one lacks
+    the clauses in between. The case table is in order of first appearance in the source, so choosing by position
+    (`.last()`, `.find(..)` over the table) picks the wrong matrix whenever the clauses are not written in ascending
+    prefix order — `[a, b, ..]` before `[a, ..]` then runs the second clause for [1, 2, 3]."""
+    fj = sh.file(GENU7)
+    hd = [fn for q, fn in all_fns(fj) if q.endswith("CodeGenerator::handle_decision_tree")]
+    if not hd:
+        raise AnchorMissing("CodeGenerator::handle_decision_tree")
+    rep.touched(GENU7, "CodeGenerator::handle_decision_tree")
+    arms = [a for m in matches_in(hd[0]["body"]) for a in m["arms"] if any(last(pat_head(x) or "") == "ListSwitch" for x in pat_alts(a["pat"]))]
+    if not arms:
+        raise AnchorMissing("DecisionTree::ListSwitch arm in handle_decision_tree")
+    scopes = [("handle_decision_tree", arms[0]["body"], "tail_cases")]
+    # helpers that receive the table
+    for c in walk(arms[0]["body"]):
+        if c.get("k") == "Call" and c["f"].get("k") == "Path":
+            for pos, a in enumerate(c["args"]):
+                if re.sub(r"^&(mut)?", "", sh.nsrc(GENU7, a)) == "tail_cases":
+                    for q, g in all_fns(fj):
+                        if q.split("::")[-1] == last(c["f"]["p"]) and "body" in g and pos < len(g["sig"]["inputs"]):
+                            pn = g["sig"]["inputs"][pos]["pat"].get("name")
+                            if pn:
+                                scopes.append((q, g["body"], pn))
+    sel = 0
+    for where, body, name in scopes:
+        seen = set()
+        for n in walk(body):
+            if n.get("k") != "MethodCall" or id(n) in seen:
+                continue
+            ms, root, args = _chain(n)
+            inner = n
+            while inner.get("k") == "MethodCall":
+                seen.add(id(inner))
+                inner = inner["recv"]
+            mentions = (root.get("k") == "Path" and root["p"] == name) or any(x.get("k") == "Path" and x["p"] == name for a in args for x in walk(a) if a.get("k") != "Closure")
+            if not mentions:
+                continue
+            pos_ = [m for m in ms if m in POSITIONAL]
+            ordd = [m for m in ms if m in ORDERING]
+            if not pos_ and not ordd:
+                continue
+            sel += 1
+            ok = bool(ordd) and (not pos_ or ms.index(ordd[0]) < ms.index(pos_[0]))
+            rep.check(ok, "R07-TAILPICK", "%s#selection#%d" % (where, sel), sh.loc(GENU7, n), "a tail case is chosen from `%s` by table position (`.%s`) — the table is in order of first appearance, not of prefix length: with `[a, b, ..]` written before `[a, ..]` a list of three elements runs the clauses of `[a, ..]` only, and the first matching clause is skipped" % (name, ".".join(ms)), why_ok="chosen by prefix length (%s)" % ".".join(ordd), sample={"chain": ms})
+    if sel < 2:
+        rep.bad("R07-TAILPICK", "handle_decision_tree#selections", sh.loc(GENU7, arms[0]), "only %d selection(s) among the tail cases found (anchor: one for lists beyond the longest pattern, one per length)" % sel)
